@@ -264,12 +264,12 @@ pub fn execute(p: &Program, prefix: &[usize], horizon: usize, on_decision: Optio
             let mut reason = String::new();
             for _round in 0..3 {
                 sut.quiesce(10_000);
+                let r0 = sess.coordinator_rounds.load(Ordering::SeqCst);
                 sched.grant_tick();
                 let t0 = std::time::Instant::now();
-                while sched.ticks_outstanding() > 0 && t0.elapsed() < Duration::from_secs(10) {
+                while sess.coordinator_rounds.load(Ordering::SeqCst) == r0 && t0.elapsed() < Duration::from_secs(10) {
                     std::thread::sleep(Duration::from_micros(100));
                 }
-                std::thread::sleep(Duration::from_micros(300));
                 sut.quiesce(10_000);
                 let d = sut.store().verif_dump();
                 reason = if !d.buffered.is_empty() {
@@ -365,6 +365,14 @@ pub fn judge_linearizable(p: &Program, ex: &Exec) -> Vec<String> {
             v.push(e);
         }
     }
+    if p.cfg.persistent && !p.name.starts_with("wb:") {
+        if let Some(d) = &ex.final_dump {
+            // quiescent (all threads done, flush acknowledged): exact partition of the data area
+            if d.buffered.is_empty() && d.retirements.is_empty() {
+                v.extend(crate::crash::structural_live(&p.cfg, d));
+            }
+        }
+    }
     for r in &ex.recs {
         if let Out::Panic(m) = &r.out {
             v.push(format!("C20: {} panicked: {m}", p.tables.describe(&r.op)));
@@ -433,7 +441,7 @@ pub fn judge_acknowledged(p: &Program, ex: &Exec, cache: &Mutex<std::collections
     acks.sort_by_key(|a| a.0);
     let ob = Obligations { hists, acks, op_begin, ttl: p.cfg.ttl };
     let from = ex.setup_recs.last().map(|r| r.log_response).unwrap_or(0);
-    let opts = crash::CrashOpts { sector_tear: false, reopen_cycles: 0, nest: 0, now: ex.now };
+    let opts = crash::CrashOpts { sector_tear: false, reopen_cycles: 0, nest: 0, now: ex.now, probe_auto_ts: false };
     let ctx = hash64(&[p.name.as_bytes(), format!("{:?}{:?}", ob.hists, ob.acks).as_bytes()]);
     // identical device logs with identical obligations have identical verdicts: cache per execution
     let mut log_bytes: Vec<u8> = Vec::new();
